@@ -18,6 +18,16 @@ Two layers, both executable and core-only:
   body of a function is a block table, so every reference creates a fresh free entry) and
   `compileFunc` (`MakeCell(symbol index, depth-1)`; parameters, then the function's own
   name, then the locals in declaration order).
+
+* **block scopes** (section 2b): `if`/`else` bodies, `switch` cases, the loop forms (loop table +
+  body table).  A block table claims its indexes from the enclosing FUNCTION table and never
+  gives them back (`SymbolTable.claimIndex`: `len(t.symbols)` of the function table, then
+  append), so a variable declared in a block that has been closed keeps its slot for good.
+  `FScope.applyOp`/`FScope.claims` is that allocator on its own (the subject of
+  `block_slots_never_reused`); the resolver below uses the same `FScope.declare`.
+  A variable declared in a loop body is ONE slot for all iterations in both modes (recorded
+  finding C01-loop-body-variable-shared); the harness generates loop-body captures only where
+  that cannot be told from a fresh variable per iteration.
 -/
 namespace Risor.C02
 
@@ -120,6 +130,16 @@ def AOp.depth1 : AOp → Bool
 inductive Route | map | filter | each | sorted | try_ | spawn | gospawn
   deriving Repr, DecidableEq, Inhabited
 
+/-- the loop forms:
+    `for3`   `for x := 0; x < n; x++ { body }`      (loop table declares `x`; body table)
+    `cond`   `for x < n { body }`                    (`x` declared before; the body increments it)
+    `range1` `for x := range n { body }`
+    `range2` `for i, x := range [items] { body }`
+    `forin`  `for x in [items] { body }`
+    `once`   `for { body; break }` -/
+inductive LoopK | for3 | cond | range1 | range2 | forin | once
+  deriving Repr, DecidableEq, Inhabited
+
 /-- source terms (expressions and statements in one type) -/
 inductive Tm
   | int (n : Int)
@@ -142,6 +162,11 @@ inductive Tm
   | massign (xs : List String) (e : Tm)        -- `a, b = e`           (compileMultiVar, plain)
   | mdecl (xs : List String) (e : Tm)          -- `a, b := e`          (compileMultiVar, walrus)
   | ret (e : Tm)
+  -- block scopes (statements; only inside functions; `ret` is not allowed inside them)
+  | ifte (c : Tm) (t e : List Tm)              -- `if c { t }` / `if c { t } else { e }` (e ≠ [])
+  | switch (subj : Tm) (cases : List Tm)       -- `switch subj { case k: … default: … }`, cases are `scase`s, the default last
+  | scase (k : Option Int) (body : List Tm)    -- one case (`none` = default): its body is a block
+  | loop (k : LoopK) (xs : List String) (n : Nat) (items : List Int) (body : List Tm)
   deriving Repr, Inhabited
 
 inductive Ref | glob (i : Nat) | loc (i : Nat) | free (i : Nat)
@@ -167,6 +192,11 @@ inductive RTm
   /-- `e ; Unpack n ; Store* r_{n-1} … Store* r_0`: the refs in the order of the names -/
   | unpack (rs : List Ref) (e : RTm)
   | ret (e : RTm)
+  | ifte (c : RTm) (t e : List RTm)
+  | switch (subj : RTm) (cases : List RTm)
+  | scase (k : Option Int) (body : List RTm)
+  /-- `rs`: the loop's own names (`for3`, `range*`, `forin`) or the counter it tests (`cond`) -/
+  | loop (k : LoopK) (rs : List Ref) (n : Nat) (items : List Int) (body : List RTm)
   deriving Repr, Inhabited
 
 /-- one function literal after compilation -/
@@ -199,8 +229,10 @@ def depth1Only (lits : List Lit) : Bool := lits.all Lit.depth1
 structure FScope where
   fnTab : List (String × Nat)      -- parameters and the function's own name
   bodyTab : List (String × Nat)    -- the body's block table
-  count : Nat
+  count : Nat                      -- `len(symbols)` of the function table: the next index `claimIndex` hands out
   frees : List (Nat × Nat)
+  /-- the block tables open inside the body, innermost first (`NewBlock` … `symbols = symbols.parent`) -/
+  blocks : List (List (String × Nat)) := []
   deriving Repr, Inhabited
 
 structure RS where
@@ -212,10 +244,70 @@ structure RS where
 def lookupTab (t : List (String × Nat)) (x : String) : Option Nat :=
   (t.find? fun p => p.1 == x).map (·.2)
 
+/-- the innermost open block that declares `x` -/
+def lookupBlocks : List (List (String × Nat)) → String → Option Nat
+  | [], _ => none
+  | b :: bs, x =>
+    match lookupTab b x with
+    | some i => some i
+    | none => lookupBlocks bs x
+
 def FScope.lookup (s : FScope) (x : String) : Option Nat :=
-  match lookupTab s.bodyTab x with
+  match lookupBlocks s.blocks x with
   | some i => some i
-  | none => lookupTab s.fnTab x
+  | none =>
+    match lookupTab s.bodyTab x with
+    | some i => some i
+    | none => lookupTab s.fnTab x
+
+/-! ### 2b. block tables and the slot allocator (model of `NewBlock`, `claimIndex`, `InsertVariable`) -/
+
+/-- `code.symbols = code.symbols.NewBlock()` -/
+def FScope.openBlock (s : FScope) : FScope := { s with blocks := [] :: s.blocks }
+
+/-- `code.symbols = code.symbols.parent`: the table is dropped, `count` (the function table's
+    `symbols`) is NOT touched — the indexes of the closed block stay claimed -/
+def FScope.closeBlock (s : FScope) : FScope := { s with blocks := s.blocks.tail }
+
+/-- `InsertVariable(x)` in the current table (innermost open block, else the body table):
+    a new name claims index `count` of the function table (`claimIndex` walks up through the
+    block tables to the function table: `idx := len(t.symbols)`, append).  Returns the slot and
+    whether it was newly claimed. -/
+def FScope.declare (s : FScope) (x : String) : Nat × Bool × FScope :=
+  match s.blocks with
+  | [] =>
+    match lookupTab s.bodyTab x with
+    | some i => (i, false, s)
+    | none => (s.count, true, { s with bodyTab := (x, s.count) :: s.bodyTab, count := s.count + 1 })
+  | b :: bs =>
+    match lookupTab b x with
+    | some i => (i, false, s)
+    | none => (s.count, true, { s with blocks := ((x, s.count) :: b) :: bs, count := s.count + 1 })
+
+/-- what the compiler does to one function's tables between the function's `{` and `}` -/
+inductive BOp
+  | openB                 -- a block begins (if/else body, switch case, loop table, loop body)
+  | closeB                -- it ends
+  | decl (x : String)     -- `x := …`, a loop variable, a named function statement
+  deriving Repr, DecidableEq
+
+def FScope.applyOp (s : FScope) : BOp → FScope × List Nat
+  | .openB => (s.openBlock, [])
+  | .closeB => (s.closeBlock, [])
+  | .decl x =>
+    match s.declare x with
+    | (i, true, s') => (s', [i])
+    | (_, false, s') => (s', [])
+
+/-- the tables after a sequence of operations -/
+def FScope.runOps : FScope → List BOp → FScope
+  | s, [] => s
+  | s, op :: ops => FScope.runOps (s.applyOp op).1 ops
+
+/-- the slots claimed by the NEW variables of a sequence of operations, in declaration order -/
+def FScope.claims : FScope → List BOp → List Nat
+  | _, [] => []
+  | s, op :: ops => (s.applyOp op).2 ++ FScope.claims (s.applyOp op).1 ops
 
 /-- search the enclosing functions (1 level up = index 0 of `outer`) -/
 def lookupOuter : List FScope → String → Nat → Option (Nat × Nat)
@@ -258,9 +350,24 @@ def declareName (rs : RS) (x : String) : Ref × RS :=
     | some i => (.glob i, rs)
     | none => (.glob rs.globals.length, { rs with globals := rs.globals ++ [x] })
   | s :: outer =>
-    match lookupTab s.bodyTab x with
-    | some i => (.loc i, rs)
-    | none => (.loc s.count, { rs with scopes := { s with bodyTab := (x, s.count) :: s.bodyTab, count := s.count + 1 } :: outer })
+    match s.declare x with
+    | (i, _, s') => (.loc i, { rs with scopes := s' :: outer })
+
+/-- a block begins: only modelled inside functions -/
+def RS.openB (rs : RS) : Except String RS :=
+  match rs.scopes with
+  | [] => .error "block at global scope"
+  | s :: outer => .ok { rs with scopes := s.openBlock :: outer }
+
+def RS.closeB (rs : RS) : RS :=
+  match rs.scopes with
+  | [] => rs
+  | s :: outer => { rs with scopes := s.closeBlock :: outer }
+
+def RS.inBlock (rs : RS) : Bool :=
+  match rs.scopes with
+  | [] => false
+  | s :: _ => !s.blocks.isEmpty
 
 /-- `Resolve` for a list of names, in list order (each reference of a free variable claims
     the next free index of the innermost function) -/
@@ -363,8 +470,41 @@ def resolveTm : Nat → Tm → RS → Except String (RTm × RS)
     let (refs, rs) := declareNames xs.reverse rs
     pure (.unpack refs.reverse e, rs)
   | n + 1, .ret e, rs => do
+    if rs.inBlock then .error "return inside a block"
     let (e, rs) ← resolveTm n e rs
     pure (.ret e, rs)
+  -- compileIf: the condition, then each body is a block (compileBlock: NewBlock … parent)
+  | n + 1, .ifte c t e, rs => do
+    let (c, rs) ← resolveTm n c rs
+    let rs ← rs.openB
+    let (t, rs) ← resolveList n t rs
+    let rs := rs.closeB
+    if e.isEmpty then pure (.ifte c t [], rs)
+    else
+      let rs ← rs.openB
+      let (e, rs) ← resolveList n e rs
+      pure (.ifte c t e, rs.closeB)
+  -- compileSwitch: the subject, the case expressions (integer literals), then the case
+  -- blocks in order, the default block last
+  | n + 1, .switch subj cases, rs => do
+    let (subj, rs) ← resolveTm n subj rs
+    let (cs, rs) ← resolveList n cases rs
+    pure (.switch subj cs, rs)
+  | n + 1, .scase k body, rs => do
+    let rs ← rs.openB
+    let (b, rs) ← resolveList n body rs
+    pure (.scase k b, rs.closeB)
+  -- the loops: a block table for the loop itself (init / range variables), and the body is a
+  -- block of its own
+  | n + 1, .loop k xs cnt items body, rs => do
+    let rs ← rs.openB
+    let (refs, rs) ←
+      match k with
+      | .cond => resolveNames xs rs                              -- the condition `x < n`
+      | _ => (pure (declareNames xs rs) : Except String (List Ref × RS))   -- `x := 0` / the range names, in order
+    let rs ← rs.openB
+    let (b, rs) ← resolveList n body rs
+    pure (.loop k refs cnt items b, rs.closeB.closeB)
 def resolveList : Nat → List Tm → RS → Except String (List RTm × RS)
   | 0, _, _ => .error "fuel"
   | _ + 1, [], rs => .ok ([], rs)
@@ -539,6 +679,20 @@ def swapAt (xs : List Val) (i j : Nat) : List Val :=
     (`TypeErrorf(err.Error())`) keep their text but lose their fatality -/
 def softened (e : Err) : Err := if e.hard then e else { e with fatal := false }
 
+/-- `switch`: the body of the first case whose literal equals the subject, else the default's -/
+def pickCase : List RTm → Int → Option (List RTm) → List RTm
+  | [], _, dflt => dflt.getD []
+  | .scase (some k) body :: rest, v, dflt => if k == v then body else pickCase rest v dflt
+  | .scase none body :: rest, v, _ => pickCase rest v (some body)
+  | _ :: rest, v, dflt => pickCase rest v dflt
+
+/-- what the iterator of a range loop yields: (key, value) pairs -/
+def loopItems (k : LoopK) (n : Nat) (items : List Int) : List (Int × Int) :=
+  match k with
+  | .range1 => (List.range n).map fun (i : Nat) => (Int.ofNat i, Int.ofNat i)
+  | .range2 | .forin => ((List.range items.length).zip items).map fun (p : Nat × Int) => (Int.ofNat p.1, p.2)
+  | _ => []
+
 mutual
 def eval (m : Mode) (lits : List Lit) : Nat → RTm → M Val
   | 0, _ => throwE .fuel true
@@ -607,6 +761,24 @@ def eval (m : Mode) (lits : List Lit) : Nat → RTm → M Val
     | .opaque => throwE .undef true
     | _ => throwE .type
   | n + 1, .ret e => eval m lits n e
+  -- block statements: their value (popped by the statement list) is not modelled: nil
+  | n + 1, .ifte c t e => do
+    let cv ← eval m lits n c
+    let _ ← execBody m lits n (if cv.truthy then t else e)
+    pure .nil
+  | n + 1, .switch subj cases => do
+    let sv ← eval m lits n subj
+    match sv with
+    | .int v =>
+      let _ ← execBody m lits n (pickCase cases v none)
+      pure .nil
+    | _ => throwE .undef true                                    -- a subject that is not an int: not modelled
+  | _ + 1, .scase _ _ => throwE .bad true
+  | n + 1, .loop k rs cnt items body => do
+    match k, rs with
+    | .for3, [r] => storeRef r (.int 0)                          -- the init clause `x := 0`
+    | _, _ => pure ()
+    loopRun m lits n k rs cnt (loopItems k cnt items) body
   | n + 1, .route k args => do
     match k, args with
     | .map, [l, f] | .filter, [l, f] | .each, [l, f] =>
@@ -681,6 +853,55 @@ def execBody (m : Mode) (lits : List Lit) : Nat → List RTm → M Val
   | n + 1, t :: ts => do
     let _ ← eval m lits n t
     execBody m lits n ts
+/-- the iterations of a loop.  `for3`/`cond`: test `x < n` on the variable's CURRENT value (the
+    body, or a closure it calls, may have written it), run the body block, then (`for3`) the post
+    clause `x++`.  Range forms: store the next key/value into the loop's names, run the body.
+    `once`: `for { body; break }`.  Every iteration re-enters the same body block: same slots. -/
+def loopRun (m : Mode) (lits : List Lit) : Nat → LoopK → List Ref → Nat → List (Int × Int) → List RTm → M Val
+  | 0, _, _, _, _, _ => throwE .fuel true
+  | n + 1, k, rs, cnt, its, body =>
+    match k, rs, its with
+    | .once, _, _ => do
+      let _ ← execBody m lits n body
+      pure .nil
+    | .for3, [r], _ => do
+      let v ← loadRef r
+      match v with
+      | .int x =>
+        if x < (cnt : Int) then do
+          let _ ← execBody m lits n body
+          let v2 ← loadRef r
+          let nv ← addVals v2 (.int 1)
+          storeRef r nv
+          loopRun m lits n .for3 [r] cnt its body
+        else pure .nil
+      | _ => throwE .undef true
+    | .cond, [r], _ => do
+      let v ← loadRef r
+      match v with
+      | .int x =>
+        if x < (cnt : Int) then do
+          let _ ← execBody m lits n body
+          loopRun m lits n .cond [r] cnt its body
+        else pure .nil
+      | _ => throwE .undef true
+    | .range1, [_], [] => pure .nil
+    | .range1, [r], (key, _) :: rest => do
+      storeRef r (.int key)
+      let _ ← execBody m lits n body
+      loopRun m lits n .range1 [r] cnt rest body
+    | .range2, [_, _], [] => pure .nil
+    | .range2, [ri, rx], (key, val) :: rest => do
+      storeRef ri (.int key)
+      storeRef rx (.int val)
+      let _ ← execBody m lits n body
+      loopRun m lits n .range2 [ri, rx] cnt rest body
+    | .forin, [_], [] => pure .nil
+    | .forin, [r], (_, val) :: rest => do
+      storeRef r (.int val)
+      let _ ← execBody m lits n body
+      loopRun m lits n .forin [r] cnt rest body
+    | _, _, _ => throwE .bad true
 /-- `callFunction`: push a frame on top of the running VM's stack, run, pop -/
 def callVal (m : Mode) (lits : List Lit) : Nat → Val → List Val → M Val
   | 0, _, _ => throwE .fuel true
@@ -820,7 +1041,8 @@ recorded in the innermost function only) and `RTm.mkfn`; `armMakeCell` → `capt
 .positional` (`stack[d]`, "no frame at depth", the slot range check) ; `armLoadFree`/
 `armStoreFree` → `loadRef`/`storeRef` on `Ref.free`; `callFunctionFrame` → `initLocals` (self
 slot) and `callVal` (a new frame on top of the running stack); `captureLocals` → cells are
-(activation, slot) pairs that alias the frame's own locals. -/
+(activation, slot) pairs that alias the frame's own locals; `claimIndex`/`newBlock`/
+`compileBlockTables` → `FScope.declare`, `FScope.openBlock`, `FScope.closeBlock`. -/
 namespace Src
 
 def compileFuncEmits : List String := [
@@ -873,6 +1095,30 @@ def captureLocals : List String := [
   "f.capturedLocals = newStorage",
   "f.locals = newStorage",
   "return newStorage"
+]
+
+/-- `FScope.declare`: a block table passes the claim up to the function table, whose next index
+    is `len(t.symbols)`; nothing removes from `symbols` -/
+def claimIndex : List String := [
+  "if t.isBlock { return t.parent.claimIndex(s) }",
+  "idx := len(t.symbols)",
+  "if idx >= math.MaxUint16 { return 0, errors.New(\"compile error: too many symbols\") }",
+  "uidx := uint16(idx)",
+  "t.symbols = append(t.symbols, s)",
+  "s.index = uidx",
+  "return uidx, nil"
+]
+
+def newBlock : List String := [
+  "child := t.NewChild()",
+  "child.isBlock = true",
+  "return child"
+]
+
+/-- `FScope.openBlock` / `FScope.closeBlock` -/
+def compileBlockTables : List String := [
+  "code.symbols = code.symbols.NewBlock()",
+  "code.symbols = code.symbols.parent"
 ]
 
 end Src
